@@ -75,7 +75,8 @@ class Verifier(Stmts):
 
     @staticmethod
     def resolve(qualname):
-        parts = qualname.split('.')
+        # "module.Class.method#VIEW": a second contract (view) of the same function, verified under its own name
+        parts = qualname.split('#')[0].split('.')
         for k in range(len(parts) - 1, 0, -1):
             modname = '.'.join(parts[:k])
             try:
@@ -147,6 +148,8 @@ class Verifier(Stmts):
         for a in node.args.args:
             if a.arg == name and a.annotation is not None:
                 ann = ast.unparse(a.annotation)
+                if ann in ('BinaryIO', 'typing.BinaryIO', 'BytesIO'):
+                    return ('stream',)
                 return from_annotation(ann, self.reg, func.__globals__)
         if name in ('self', 'cls') and '.' in func.__qualname__:
             owner = func.__qualname__.split('.')[-2]
@@ -163,6 +166,13 @@ class Verifier(Stmts):
             for f, fty in ty.fields.items():
                 fields[f] = self.make_symbolic("%s.%s" % (name, f), fty, st)
             return Ref(loc)
+        if isinstance(ty, tuple) and ty and ty[0] == 'stream':
+            # a binary stream parameter: arbitrary contents, cursor anywhere inside
+            data = self.fresh(name + '.data', BYTES)
+            pos = self.fresh(name + '.pos', INT)
+            st.assume(z3.And(pos.t >= 0, pos.t <= z3.Length(data.t)))
+            outs = list(self.new_stream([], st, data=data, pos=pos))
+            return outs[0][1]
         if isinstance(ty, tuple) and ty and ty[0] == 'mutable':
             kind, vty = ty[1], ty[2]
             v = self.fresh(name, vty)
@@ -326,7 +336,7 @@ class Verifier(Stmts):
                 if isinstance(val, Ref):
                     conts.add(val.loc)
                     h = st.heap[val.loc]
-                    if h.kind == 'obj':
+                    if h.kind == 'obj' and h.fields is not None:
                         for f in h.fields:
                             fields.add((val.loc, f))
         return fields, conts
@@ -357,6 +367,11 @@ class Verifier(Stmts):
                 if loc in conts:
                     continue
                 self._frame_compare(qn, st, h0.val, h1.val, "contents of a %s" % h0.kind)
+            elif h0.kind == 'stream':
+                if loc in conts:
+                    continue
+                for f in ('data', 'pos'):
+                    self._frame_compare(qn, st, h0.fields[f], h1.fields[f], "%s of a stream" % f)
 
     def _frame_compare(self, qn, st, v0, v1, what):
         if v0 is v1:
@@ -429,7 +444,9 @@ class Verifier(Stmts):
             # normal outcome
             normal = cst if st.spec else cst.fork()
             normal.old = pre
-            if con.modifies_:
+            if con.effect_fn is not None and not st.spec:
+                con.effect_fn(self, normal, vals)
+            elif con.modifies_:
                 self.havoc_paths(con, normal, env)
             nenv = dict(env)        # lets are entry values: evaluated before the havoc above
             nenv['result'] = result
@@ -439,7 +456,7 @@ class Verifier(Stmts):
                 pre_ok = self.b(self._and([self.spec_bool(t, normal, nenv) for t in con.requires_]))
                 for text in con.ensures_ + con.on_any_:
                     normal.assume(z3.Implies(pre_ok, self.b(self.spec_bool(text, normal, nenv))))
-            elif not st.spec:
+            elif not st.spec and con.effect_fn is None:
                 # inside a specification a summarised call is just the summary term: the callee's post-conditions are
                 # brought in explicitly where a lemma needs them (use_contract), not silently at every mention
                 for text in con.ensures_ + con.on_any_:
@@ -671,6 +688,12 @@ class Verifier(Stmts):
                     hc = st.heap[v.loc]
                     if hc.kind in ('list', 'set', 'dict') and hc.val is not None:
                         hc.val = self.fresh(path, hc.val.ty)
+                        continue
+                    if hc.kind == 'stream':
+                        before = hc.fields['pos'].t
+                        hc.fields['data'] = self.fresh(path + '.data', BYTES)
+                        hc.fields['pos'] = self.fresh(path + '.pos', INT)
+                        self.stream_moved(st, hc, before)
                         continue
                 raise Outside("cannot havoc %s" % path)
             else:
